@@ -225,6 +225,20 @@ def gen():
         return k.bdef('gen_merge_new_run', ['next_start', 'shifted_prev_stop'], v[0].value)
     emit(defs, 'gen_merge_new_run', merge_new_run)
 
+    def merge_assert(index, name, renames, params):
+        f = merge_func()
+        asserts = [n for n in f.body if isinstance(n, ast.Assert)]
+        if len(asserts) != 2:
+            raise Unsupported('merge_intervals: expected two assert statements, found %d' % len(asserts))
+        t = asserts[index].test
+        if not (isinstance(t, ast.Call) and src_of(t.func) == 'np.all' and len(t.args) == 1 and not t.keywords):
+            raise Unsupported('merge_intervals: assertion is not np.all(<comparison>)')
+        return K(f, renames).bdef(name, params, t.args[0])
+    emit(defs, 'gen_merge_sorted_pair', lambda: merge_assert(0, 'gen_merge_sorted_pair',
+         {'intervals.start[:-1]': 'this_start', 'intervals.start[1:]': 'next_start'}, ['this_start', 'next_start']))
+    emit(defs, 'gen_merge_assert', lambda: merge_assert(1, 'gen_merge_assert',
+         {'new_interval.start[1:]': 'next_start', 'new_interval.stop[:-1]': 'prev_stop'}, ['next_start', 'prev_stop']))
+
     # ------------------------------------------------------------------ count_overlap
     def overlap_term():
         f = find_function(tree, 'count_overlap')
